@@ -624,6 +624,7 @@ pub struct Renderer<'a> {
     depth: usize,
     holes: &'a [Hole],
     calls: Vec<(usize, usize, usize)>,
+    in_call: usize,
 }
 
 const COMMENTS_ASCII: &[&str] = &[
@@ -651,6 +652,7 @@ impl<'a> Renderer<'a> {
             depth: 0,
             holes,
             calls: vec![],
+            in_call: 0,
         }
     }
 
@@ -664,7 +666,12 @@ impl<'a> Renderer<'a> {
             } else {
                 COMMENTS_ASCII
             };
-            let c = *self.rng.pick(pool);
+            let mut c = *self.rng.pick(pool);
+            if self.in_call > 0 && c.starts_with("//") {
+                // inside a call expression only block comments: simfony's debug symbols join
+                // the lines of a call, which would let a line comment swallow the rest
+                c = "/* c */";
+            }
             let c = c.replace('\n', self.st.nl);
             self.out.push_str(&c);
             if c.starts_with("//") {
@@ -963,6 +970,7 @@ impl<'a> Renderer<'a> {
             }
             Expr::Call(c) => {
                 let start = self.out.len();
+                self.in_call += 1;
                 self.call_name(&c.name);
                 self.tok("(");
                 for (i, x) in c.args.iter().enumerate() {
@@ -972,6 +980,7 @@ impl<'a> Renderer<'a> {
                     self.expr(x);
                 }
                 self.tok(")");
+                self.in_call -= 1;
                 self.calls.push((c.id, start, self.out.len()));
             }
             Expr::Hole(i) => {
